@@ -358,6 +358,14 @@ func (x *Exec) mergeStates(base *State, ca, cb capture, cond *Term, join *ssa.Ba
 			m.ghost[k] = Ite(cond, va, vb)
 		} else if oka && okb && va.sort == vb.sort {
 			m.ghost[k] = Ite(cond, va, vb)
+		} else if oka && okb && len(k) > 8 && (k[:8] == "lastarg:" || k[:8] == "lastret:") && (va.sort == SInt || vb.sort == SInt) {
+			// one side still holds the integer placeholder of a loop head (no call on that side
+			// since): any value of the recorded sort stands in
+			if va.sort == SInt {
+				m.ghost[k] = Ite(cond, x.freshConst(m, "nocall", vb.sort), vb)
+			} else {
+				m.ghost[k] = Ite(cond, va, x.freshConst(m, "nocall", va.sort))
+			}
 		} else if (oka != okb) && len(k) > 8 && (k[:8] == "lastarg:" || k[:8] == "lastret:") {
 			// recorded on one side only: the other side has no such call, any value stands in
 			if oka {
